@@ -394,6 +394,29 @@ class Repo:
             return False
         return fi.name.startswith('_') or fi.key not in FUNCTIONS
 
+    def unique_helper_method(self, name: str) -> Optional[FuncInfo]:
+        """the one method of that name in the package, if it is a helper (private or absent from the frozen inventory), no
+        other class / module defines the name as anything, and no instance attribute of that name is ever stored"""
+        cache = getattr(self, '_unique_methods', None)
+        if cache is None:
+            defs: Dict[str, List[Any]] = {}
+            stored = set()
+            for m in self.modules.values():
+                for fname in m.functions:
+                    defs.setdefault(fname, []).append(None)
+                for c in m.classes.values():
+                    for n_ in list(c.methods) + list(c.attrs) + list(c.setters):
+                        defs.setdefault(n_, []).append(c.methods.get(n_))
+                for n_ in ast.walk(m.tree):
+                    if isinstance(n_, ast.Attribute) and isinstance(n_.ctx, (ast.Store, ast.Del)):
+                        stored.add(n_.attr)
+            cache = {}
+            for n_, lst in defs.items():
+                if len(lst) == 1 and lst[0] is not None and n_ not in stored and lst[0].kind == 'method' and self.is_helper(lst[0]):
+                    cache[n_] = lst[0]
+            self._unique_methods = cache
+        return cache.get(name)
+
     LOG_METHODS = ('debug', 'info', 'warning', 'warn', 'error', 'exception', 'critical', 'log', 'fatal')
 
     def is_logging_call(self, call: ast.AST, m: 'Module') -> bool:
